@@ -111,12 +111,16 @@ func enumEntriesFlags(tokens []string, max int, allowFlags bool) [][]string {
 // structural line alphabet of stratum B
 var structLines = []string{"a", "b|c", "ab", "##!=>", "##!=< x", "##!=> x", "##!> assemble", "##!<", "##!> cmdline unix"}
 
+// structLines2: the structural alphabet plus comments, blank and indented lines, a second stored name, the other
+// shell, and header lines (they apply to the whole file wherever they stand)
+var structLines2 = append(append([]string{}, structLines...), "##! c", "", "  a", "##!=< y", "##!=> y", "##!> cmdline windows", "##!^ p", "##!$ s", "##!+ i")
+
 // wellFormedBody: balanced, names stored before use, markers only in assemble blocks,
 // cmdline blocks contain only words (entries) or nested blocks.
 func wellFormedBody(lines []string) bool {
 	type fr struct{ cmd bool }
 	stack := []fr{{}}
-	stored := false
+	stored := map[string]bool{}
 	for _, l := range lines {
 		top := stack[len(stack)-1]
 		switch {
@@ -133,15 +137,17 @@ func wellFormedBody(lines []string) bool {
 			if top.cmd {
 				return false
 			}
-		case l == "##!=< x":
+		case strings.HasPrefix(l, "##!=< "):
 			if top.cmd {
 				return false
 			}
-			stored = true
-		case l == "##!=> x":
-			if top.cmd || !stored {
+			stored[l[6:]] = true
+		case strings.HasPrefix(l, "##!=> "):
+			if top.cmd || !stored[l[6:]] {
 				return false
 			}
+		case strings.HasPrefix(l, "##!"), strings.TrimSpace(l) == "":
+			// comments, header lines, blank lines: anywhere
 		default:
 			if top.cmd && strings.ContainsAny(l, "|()[") {
 				return false // cmdline words are words
